@@ -643,6 +643,13 @@ def run(ctx):
         [(6.2, 7.1, 100.0), (9.1, 8.3, 60.0), (16.5, 13.2, 80.0)],
         [(1.2, 1.6, 90.0), (10.5, 9.5, 50.0), (21.3, 18.4, 70.0), (12.9, 10.8, 40.0)],
     ]
+    # every container x local background x class at least once in every tier: NDData input with a
+    # non-zero local background, checked for include_localbkg both ways
+    for cls, bkgmode_, unit in (('psf', 'column', None), ('iter', 'estimator', None), ('psf', 'estimator', 'Jy')):
+        em.do({'kind': 'phot', 'shape': [21, 23], 'fwhm': 2.4, 'sources': [list(s) for s in scenes[1]],
+               'bkg': 1.5, 'bkgmode': bkgmode_, 'unit': unit, 'cls': cls, 'fit_shape': 5, 'minsep': None,
+               'psf_shapes': [5, None], 'nddata': False, 'check_nddata': True, 'maxiters': 1, 'use_init': True,
+               'sub_shape': None}, 'photometry-model-and-residual-images')
     pn = 0
     for sc, cls, bkgmode, unit in itertools.product(scenes, ('psf', 'iter'), ('none', 'column', 'estimator'), (None, 'Jy')):
         pn += 1
